@@ -32,11 +32,12 @@ SPEC = dict(
               "read-fonts/src/tables/loca.rs: Loca::read, get_raw, get_glyf",
               "write-fonts/src/tables/glyf/simple.rs (integer coordinates): simple_glyphs_from_kurbo element handling, InterpolatableContourBuilder::build, is_implicit_on_curve, is_mid_point",
               "skrifa/src/outline/path.rs: to_path, contour_to_path (FreeType and HarfBuzz styles), PendingState::emit/finish (Empty/PendingQuad), ContourPoint::midpoint"],
-    not_covered=["SimpleGlyph::read_points_fast (the reader skrifa uses): implementation oracle only (compared with points() on every accepted glyph)",
+    not_covered=["independence of skrifa drawing from caller-provided scratch memory (garbage-filled / reused buffers, unscaled and 2 ppem, both path styles): implementation oracle only, bitwise comparison with the fresh-memory draw",
+                 "SimpleGlyph::read_points_fast (the reader skrifa uses): implementation oracle only (compared with points() on every accepted glyph)",
                  "BezPath front end: modelled and proved for integer coordinates (from_path/elide/implicit, kind-7 tie); its f64 parts (isclose on non-integers, ot_round, multi-master interpolatable_glyphs_from_bezpaths, control box) are implementation oracle only; skrifa to_path is modelled (quadratic states) with well-formedness and elision-invariance theorems, cubic states not modelled (random integer line/quad paths drawn unscaled on a FontBuilder font and compared segment by segment)",
                  "flags_rle_shortest minimality among ALL flag encodings is not proved (only the exact length formula per run and the implementation-side comparison with an independently computed canonical length)",
                  "contour-count assert (>= 32767 contours) and 65535/65536-point glyphs: implementation only (too large for shards)"],
     assumptions=["Rust integer semantics of the overflow-checks + debug-assertions profile (i16 subtraction and `u16 - 1` trap; `as u16`/`as u8`/`as i8` truncate)",
                  "glyf data < 4 GiB (raw_loca stores `pos as u32`)",
-                 "drawing oracle: hmtx lsb = glyph xMin (a consistent font); otherwise the scaler shifts outlines by xMin - lsb as FreeType does"],
+                 "drawing oracle: the scaler translates outlines by xMin - lsb as FreeType does; the oracle and the kind-6 model expect exactly that translation (half of the drawn glyphs have lsb != xMin)"],
 )
